@@ -397,6 +397,63 @@ def check_laws(fails, stats, mats):
         fails.add("law:DetTrace2x2", "Det/Trace of 2x2 matrices differ from a*d-b*c / a+d", dict(kind="law"))
 
 
+def check_branches(fails, stats, rng):
+    """Which branch of the 3-D eigen routine is taken (observable: the degenerate branches return bitwise equal
+    eigenvalues) for each spectral class, and directed cases at the branch boundaries: two principal values
+    with relative gap delta = 1e-2 .. 1e-12.  Statistics, plus a loose accuracy bound 1e-4 |A|: the boundary
+    tolerances of the source (tol_theta = 1e-6, g <= 1e-12 |A|^2) cost up to ~1e-6 |A|, and for nearly spherical tensors
+    (|dev A| ~ 1e-5 |A|) the cancellation in the Lode argument costs up to ~|dev A| (observed 3e-6 |A|)."""
+    mat = build_material(dict(kind="iso", dim=3, E=210000.0, v=0.3))
+    pfm = PhaseField(mat, "Miehe", "AT2", 1.0, 0.1)
+
+    def branch(lam):
+        a, b, c = lam
+        return "triple" if a == b == c else "two-min-equal" if a == b else "two-max-equal" if b == c else "distinct"
+
+    table = {}
+    rows = []
+    for cls in classes(3):
+        for _ in range(12):
+            rows.append((cls, gen_state(cls, 3, rng)))
+    deltas = [10.0 ** (-k) for k in range(2, 13)]
+    for d in deltas:
+        for which in ("max", "min"):
+            for _ in range(4):
+                lo, hi = sorted([rng.uniform(-1, 1), rng.uniform(-1, 1)])
+                if hi - lo < 0.3:
+                    hi = lo + 0.6
+                vals = [lo, hi, hi + (hi - lo) * d] if which == "max" else [lo, lo + (hi - lo) * d, hi]
+                Q = rand_rot(3, rng)
+                rows.append(("gap%.0e" % d, abs(rand_amp(rng)) * (Q * np.array(vals)) @ Q.T))
+        for _ in range(2):      # nearly spherical: deviatoric part of relative size delta
+            Q = rand_rot(3, rng)
+            rows.append(("dev%.0e" % d, abs(rand_amp(rng)) * (np.eye(3) + d * (Q * np.array([-1.0, 0.2, 0.8])) @ Q.T)))
+    vec = np.array([to_vec(A) for _, A in rows]).reshape(len(rows), 1, 6)
+    try:
+        vals, lm, lM = pfm._Eigen_values_vectors_projectors(FeArray.asfearray(vec.copy()))
+    except Exception as ex:  # noqa: BLE001
+        fails.add("exception:3d:branches:%s" % type(ex).__name__, "eigen routine raised %s on the branch-boundary cases: %s" % (type(ex).__name__, ex), dict(kind="hook"))
+        return
+    vals = np.asarray(vals)
+    Ms = [np.asarray(M) for M in lM]
+    for k, (cls, A) in enumerate(rows):
+        lam = vals[k, 0]
+        w = np.linalg.eigvalsh(A)
+        nA = np.linalg.norm(A)
+        fin = np.isfinite(lam).all() and all(np.isfinite(M[k, 0]).all() for M in Ms)
+        b = branch(lam) if fin else "non-finite"
+        e = float(max(np.linalg.norm(np.sort(lam) - w), np.linalg.norm(sum(l * M[k, 0] for l, M in zip(lam, Ms)) - A)) / nA) if fin and nA > 0 else 0.0
+        t = table.setdefault(cls, {"branches": {}, "max_rel_err": 0.0})
+        t["branches"][b] = t["branches"].get(b, 0) + 1
+        t["max_rel_err"] = max(t["max_rel_err"], e)
+        stats["cases"] += 1
+        if (not fin or e > 1e-4) and (cls.startswith("gap") or cls.startswith("dev")):
+            fails.add("eig:3d:near-degenerate", "near a branch boundary (%s) the eigen-decomposition is %s: relative error %.3e, branch %s" % (cls, "non-finite" if not fin else "inaccurate", e, b),
+                      dict(material=dict(kind="iso", dim=3, E=210000.0, v=0.3), matname="iso3", split="Miehe", regu="AT2", eps_elem=[to_vec(A).tolist()],
+                           classes=["two_eq_near"], gp=0, kind="eig", extra=None))
+    stats["branch_table"] = table
+
+
 def main():
     import random
     inp = json.load(sys.stdin)
@@ -409,6 +466,7 @@ def main():
     mats = materials(rng)
     if not only:
         check_laws(fails, stats, mats)
+        check_branches(fails, stats, rng)
     for name, p in mats:
         for split in PhaseField.Get_splits():
             split = str(split)
